@@ -140,10 +140,17 @@ type ckMismatch struct {
 	Config SysCfg `json:"config"`
 }
 
-var idMask = regexp.MustCompile(`"(id|ID|RspTo|rsp_to|next_id)":\s*\d+`)
+// every key that holds a generated ID in the tick-family entities: message / event / task IDs
+// (id, ID, req_id, recv_task_id, current_cmd_id, next_id …) and response references
+var idMask = regexp.MustCompile(`"([A-Za-z_]*(?:id|ID|Id)|RspTo|rsp_to)":\s*\d+`)
 
-// maskIDs erases generated IDs from an entity payload.
-func maskIDs(b []byte) []byte { return idMask.ReplaceAll(b, []byte(`"$1":0`)) }
+var payloadMask = regexp.MustCompile(`payload-\d+`)
+
+// maskIDs erases generated IDs from an entity payload (the harness's own message payload text
+// is derived from the message ID, so it is erased with it).
+func maskIDs(b []byte) []byte {
+	return payloadMask.ReplaceAll(idMask.ReplaceAll(b, []byte(`"$1":0`)), []byte("payload-0"))
+}
 
 // canonIDs renames event and message IDs by order of first appearance.
 func canonIDs(recs []map[string]any) []map[string]any {
